@@ -62,7 +62,22 @@ fn check_template(case: &Value, t: &Template, root: &Path) -> Option<Value> {
         fs::write(root.join(n), b).unwrap();
         bystanders.insert(n.to_string(), b.as_bytes().to_vec());
     }
-    let roller: Box<dyn Roll> = if case["kind"] == "delete" {
+    let roller: Box<dyn Roll> = if t.name == "env" || (case["kind"] == "delete" && base % 2 == 1) {
+        // built from a configuration value; `base` is left out where it is the default 0
+        let doc = if case["kind"] == "delete" {
+            json!({})
+        } else if base == 0 {
+            json!({"pattern": t.pattern, "count": count})
+        } else {
+            json!({"pattern": t.pattern, "count": count, "base": base})
+        };
+        let v: serde_value::Value = serde_json::from_value(doc).unwrap();
+        let kind = if case["kind"] == "delete" { "delete" } else { "fixed_window" };
+        match log4rs::config::Deserializers::default().deserialize::<dyn Roll>(kind, v) {
+            Ok(r) => r,
+            Err(e) => return Some(json!({"what": "roller from configuration failed", "error": e.to_string()})),
+        }
+    } else if case["kind"] == "delete" {
         Box::new(DeleteRoller::new())
     } else {
         match FixedWindowRoller::builder().base(base).build(&t.pattern, count) {
